@@ -630,3 +630,101 @@ def check_population(ps, T=0.5, dt=0.05, solver="euler"):
                 fails.append(dict(clause="population unit equals the explicit network's node", var=f"{pname}_{i}/{o}/{v}", row=bad,
                                   observed=float(got[bad]) if bad >= 0 else list(got.shape), expected=float(want[bad]) if bad >= 0 else list(want.shape)))
     return fails
+
+
+def clear_all_caches():
+    from pyrates.frontend.template.operator import OperatorTemplate
+    from pyrates.ir.node import clear_ir_caches
+    from pyrates.ir.circuit import in_edge_indices, in_edge_vars
+    from pyrates.frontend.template import template_cache
+    OperatorTemplate.cache.clear()
+    clear_ir_caches()
+    in_edge_indices.clear()
+    in_edge_vars.clear()
+    template_cache.clear()
+
+
+def check_jacobian(model, seed=0, sparse=False, backend="default", n_states=2):
+    """C12-B: J from get_jacobian_func == central differences of the get_run_func field, same ordering."""
+    rng = np.random.default_rng(seed)
+    kw = dict(step_size=1e-3, backend=backend, vectorize=False, verbose=False, clear=True, in_place=False, float_precision="float64")
+    try:
+        tj = mdl.build_templates(model)
+        jf, jargs, jnames, jmap = tj.get_jacobian_func("jac_fn", sparse=sparse, file_name="jac_mod", **kw)
+    except Exception as exn:
+        return [dict(clause="get_jacobian_func returns a function for a scalar model", observed=f"{type(exn).__name__}: {exn}")]
+    clear_all_caches()
+    try:
+        tr = mdl.build_templates(model)
+        rf, rargs, rnames, rmap = tr.get_run_func("run_fn", file_name="run_mod", **kw)
+    except Exception as exn:
+        return [dict(clause="HARNESS", observed=f"get_run_func failed: {type(exn).__name__}: {exn}")]
+    fails = []
+    if dict(jmap) != dict(rmap):
+        return [dict(clause="jacobian: same state ordering as get_run_func", observed=dict(jmap), expected=dict(rmap))]
+    delayed = "hist" in rnames
+    n = len(np.asarray(rargs[1]).reshape(-1))
+    for _ in range(n_states):
+        y = np.round(rng.uniform(-1, 1, size=n), 3)
+        t0 = 0.0
+        if not delayed:
+            def f(yy):
+                return np.array(rf(t0, np.array(yy, dtype=float), *rargs[2:]), dtype=float, copy=True).ravel()
+            try:
+                J = jf(t0, y.copy(), *jargs[2:])
+            except Exception as exn:
+                return fails + [dict(clause="jacobian function is callable at every state", observed=f"{type(exn).__name__}: {exn}")]
+            J = np.asarray(J.todense() if hasattr(J, "todense") else J, dtype=float)
+            FD = np.zeros((n, n))
+            h = 1e-6
+            for j in range(n):
+                yp, ym = y.copy(), y.copy()
+                yp[j] += h
+                ym[j] -= h
+                FD[:, j] = (f(yp) - f(ym)) / (2 * h)
+            if J.shape != FD.shape or not np.allclose(J, FD, rtol=1e-5, atol=1e-7):
+                bad = np.unravel_index(int(np.argmax(np.abs(J - FD))), FD.shape) if J.shape == FD.shape else None
+                fails.append(dict(clause="jacobian: J == d f / d y (central differences of the get_run_func field)",
+                                  entry=[int(b) for b in bad] if bad else None,
+                                  observed=float(J[bad]) if bad else list(J.shape), expected=float(FD[bad]) if bad else list(FD.shape)))
+                return fails
+        else:
+            hvec = np.round(rng.uniform(-1, 1, size=n), 3)
+            hi = list(rnames).index("hist")
+
+            def fld(yy, hh):
+                args = list(rargs)
+                args[hi] = lambda tq: hh
+                return np.array(rf(t0, np.array(yy, dtype=float), *args[2:]), dtype=float, copy=True).ravel()
+            jargs2 = list(jargs)
+            if "hist" in jnames:
+                jargs2[list(jnames).index("hist")] = lambda tq: hvec
+            try:
+                res = jf(t0, y.copy(), *jargs2[2:])
+            except Exception as exn:
+                return fails + [dict(clause="jacobian function is callable at every state (delayed model)", observed=f"{type(exn).__name__}: {exn}")]
+            J0, Jt = res
+            J0 = np.asarray(J0.todense() if hasattr(J0, "todense") else J0, dtype=float)
+            h = 1e-6
+            FD0, FDh = np.zeros((n, n)), np.zeros((n, n))
+            for j in range(n):
+                yp, ym = y.copy(), y.copy()
+                yp[j] += h
+                ym[j] -= h
+                FD0[:, j] = (fld(yp, hvec) - fld(ym, hvec)) / (2 * h)
+                hp, hm = hvec.copy(), hvec.copy()
+                hp[j] += h
+                hm[j] -= h
+                FDh[:, j] = (fld(y, hp) - fld(y, hm)) / (2 * h)
+            if not np.allclose(J0, FD0, rtol=1e-5, atol=1e-7):
+                bad = np.unravel_index(int(np.argmax(np.abs(J0 - FD0))), FD0.shape)
+                fails.append(dict(clause="jacobian (delayed model): J0 == d f / d y(t)", entry=[int(b) for b in bad],
+                                  observed=float(J0[bad]), expected=float(FD0[bad])))
+            Js = sum(np.asarray(m.todense() if hasattr(m, "todense") else m, dtype=float) for m in Jt) if len(Jt) else np.zeros((n, n))
+            if not np.allclose(Js, FDh, rtol=1e-5, atol=1e-7):
+                bad = np.unravel_index(int(np.argmax(np.abs(Js - FDh))), FDh.shape)
+                fails.append(dict(clause="jacobian (delayed model): sum of history matrices == d f / d y(t - tau) (same history vector for every delay)",
+                                  entry=[int(b) for b in bad], observed=float(Js[bad]), expected=float(FDh[bad])))
+            if fails:
+                return fails
+    return fails
